@@ -95,7 +95,7 @@ CHECKS = {
  "C12": ("cyphermon", "exploration", "reference-model monitor: generated sequences of update statements executed by the engine (execute_mixed, and execute_write on a twin database) and by an independent model of Cypher update semantics; uid-keyed content compared after every statement, outcome (must fail / must succeed), unambiguous change counts, RETURN count(*), repeated MERGE",
          "Held on the generated statement sequences: after every statement the whole graph equalled the model's; statements the model says must fail failed without effect; pure CREATE and pure DELETE counts equalled the number of entities created/deleted; execute_write and execute_mixed agreed; a repeated MERGE whose pattern matched created nothing.",
          "A statement never reads a property it writes and never creates a second relationship of one type between the same two nodes; statements rejected at prepare or reported unsupported are not judged.", "DESIGN.md §4.4 C12"),
- "C34": ("cyphermon", "exploration", "differential monitor in child processes: the same generated statements and parameters on two copies of one database, one through the Rust API and one through the C ABI (ndb_query, statement API, ndb_execute_write, explicit transactions); fixed Value->JSON mapping, change counts, content through both APIs, error category by the engine's message convention, entry-point acceptance judged against the generator's knowledge of what it generated, exit status of the child",
+ "C34": ("cyphermon", "exploration", "differential monitor in child processes: the same generated statements and parameters on two copies of one database, one through the Rust API and one through the C ABI (ndb_query, statement API, ndb_execute_write, explicit transactions); fixed Value->JSON mapping, change counts, content through both APIs, error category by the engine's message convention, entry-point acceptance judged against the generator's knowledge of what it generated, exit status of the child; thorough tier adds the C-ABI lifecycle script under Miri and the same generated workload rebuilt with AddressSanitizer (one report file per child process)",
          "Held on the generated statements: rows and values equal as multisets under the fixed mapping through ndb_query and the statement API; change counts and final database content equal; error categories equal where the Rust error carries a category; read entry points refused every generated update (top level, FOREACH, CALL {}, UNION arms) without effect and write entry points refused statements without updates; no C API call terminated the process.",
          "Non-finite floats have no JSON form and are only required not to become numbers; row order and which rows SKIP/LIMIT keep are not compared; errors whose message has no category prefix are not compared.", "DESIGN.md §4.4 C34"),
  "C13": ("cyphermon", "exploration", "differential monitor through the C API: script with a constructed failing statement vs the same script without it, auto-commit and explicit-transaction modes, uid-keyed content comparison",
